@@ -33,6 +33,10 @@ def expected(vec):
     return "main %d\na %d\ncfile %d\nheader %d\nb %d\nembed e%d\ntag %d\ndecl %d %d\nx x%d\nsum 4336\n" % (vec["main"], vec["a"], vec["cfile"], vec["header"], vec["b"], vec["embed"], vec["tag"], vec["decl"], vec["decl"], vec["x"]) + "trace vt/a.Report %d\ntrace vt/b.Report %d\n" % (vec["trace"], vec["trace"])
 
 
+class Undecided(Exception):
+    """the harness could not decide a step (a build that did not finish in time): never a violation, the run reports exhaustive:false"""
+
+
 class World:
     def __init__(self, root, template=None):
         self.root = root
@@ -106,7 +110,10 @@ class World:
         else:
             e.pop("LLGO_TRACE", None)
         cmd.append(".")
-        r = subprocess.run(cmd, cwd=self.src, env=e, capture_output=True, text=True, timeout=900)
+        try:
+            r = subprocess.run(cmd, cwd=self.src, env=e, capture_output=True, text=True, timeout=3600)
+        except subprocess.TimeoutExpired:
+            raise Undecided("llgo build did not finish within an hour (overloaded machine?)")
         if r.returncode != 0:
             return None, r.stderr[-1500:], 0, 0
         hits = r.stderr.count("CACHE HIT")
@@ -125,7 +132,16 @@ def run_history(args):
     if os.path.exists(root):
         shutil.rmtree(root)
     w = World(root, template)
-    res = {"history": hist, "steps": [], "violation": None, "hits": 0, "miss": 0}
+    res = {"history": hist, "steps": [], "violation": None, "hits": 0, "miss": 0, "undecided": None}
+    try:
+        return run_history_(w, hist, res, root)
+    except Undecided as e:
+        res["undecided"] = str(e)
+        shutil.rmtree(root, ignore_errors=True)
+        return res
+
+
+def run_history_(w, hist, res, root):
     out, err, h, m = w.build_run()
     if out != expected(w.vec):
         res["violation"] = ("initial", "initial build prints %r want %r (%s)" % (out, expected(w.vec), err))
@@ -188,7 +204,7 @@ def py_repro_check(base):
             os.makedirs(d_)
         write_module(src, files_)
         e = llgo_env("A"); e["XDG_CACHE_HOME"] = xdg; e["GOCACHE"] = gc; e["LLGO_LIB_PYTHON"] = "/usr/lib/x86_64-linux-gnu/python3.11"
-        r = subprocess.run([llgo_path(), "build", "-O0", "-gen-llfiles", "-o", os.path.join(root, "prog"), "."], cwd=src, env=e, capture_output=True, text=True, timeout=1800)
+        r = subprocess.run([llgo_path(), "build", "-O0", "-gen-llfiles", "-o", os.path.join(root, "prog"), "."], cwd=src, env=e, capture_output=True, text=True, timeout=3600)
         if r.returncode != 0:
             return "ERR " + r.stderr[-1500:]
         mods = []
@@ -245,14 +261,18 @@ if __name__ == "__main__":
     side = {}
 
     def side_work():   # clean builds for the reproducibility part run beside the histories
-        side["repro"] = [repro_check(base, e) for e in repro_evs]
-        side["py"] = py_repro_check(base)
+        try:
+            side["repro"] = [repro_check(base, e) for e in repro_evs]
+            side["py"] = py_repro_check(base)
+        except (Undecided, subprocess.TimeoutExpired) as e:
+            side["undecided"] = str(e)
     th = threading.Thread(target=side_work)
     th.start()
     results = pmap(run_history, [(h, base, i, tw.xdg) for i, h in enumerate(hists)], workers=8)
     th.join()
     states = set()
     transitions = hits = miss = 0
+    undecided = [r["undecided"] for r in results if r["undecided"]] + ([side["undecided"]] if "undecided" in side else [])
     for r in results:
         for ev, vec in r["steps"]:
             states.add(json.dumps(vec, sort_keys=True)); transitions += 1
@@ -262,21 +282,23 @@ if __name__ == "__main__":
             rep.violation("history:" + key, what, {"history": r["history"]})
     # reproducibility of emitted IR
     nrep = 0
-    for evs_, s in zip(repro_evs, side["repro"]):
+    for evs_, s in zip(repro_evs, side.get("repro", [])):
         nrep += 1
         if s[0][1] != s[1][1] or not s[0][1]:
             a0, a1 = s[0][1].get("modules", []), s[1][1].get("modules", [])
             rep.violation("repro:" + "/".join(evs_), "two clean builds of the same sources emitted different IR: %d modules vs %d, %d module texts not shared" % (
                 len(a0), len(a1), len(set(a0) ^ set(a1))), {"history": evs_})
-    sets, err = side["py"]
-    if sets is None:
+    sets, err = side.get("py", ([], "undecided"))
+    if "py" not in side:
+        pass
+    elif sets is None:
         rep.violation("harness:pyrepro", "the Python-using package does not build:\n" + err)
     else:
         nrep += 1
         if not sets[0] or any(x != sets[0] for x in sets[1:]):
             rep.violation("repro:python-symbols", "three clean builds of a package that loads %d symbols of one Python module emitted different IR for it: %s" % (len(PY_SYMS), sets), {"history": ["pyrepro"]})
     rep.coverage.update(states=len(states), transitions=transitions, traces_validated_against_impl=len(results), evaluations=transitions, distinct_nontrivial=len(states),
-        exhaustive=True, histories=len(hists), cache_hits_seen=hits, cache_misses_seen=miss, reproducibility_pairs=nrep,
+        exhaustive=not undecided, undecided_steps=undecided[:5], histories=len(hists), cache_hits_seen=hits, cache_misses_seen=miss, reproducibility_pairs=nrep,
         samples=[hists[len(hists) // 2], hists[-1]],
         rule="world = module main -> a -> b -> d (b embeds a data file and has a build-tag-gated file pair, a has an LLGoFiles C file with a header, d is a declaration-only package whose constant and type layout are compiled into b); events = %s; "
              "every history of length <=%d%s is replayed on a fresh world with its own cache directory; state = version vector of the inputs (8 files/tags, the -X override of a string in b, the ABI mode with a by-value struct crossing main -> a -> b, LLGO_TRACE); after every step the program "
